@@ -12,7 +12,8 @@ from quara.objects.state_typical import get_state_names_1qubit, generate_state_f
 
 
 def get_state_ensemble_names():
-    names = get_state_names_1qubit()
+    # the names that have a get_state_ensemble_<name>_elements function below
+    names = ["z0", "z1", "x0"]
     return names
 
 
